@@ -31,6 +31,10 @@ L1(n) == Loc(M0, Code(n), <<Ln(Fx(n), 1, 0)>>, FALSE)
 L2(n, m) == Loc(M0, 10 + 8 * Code(n) + Code(m), <<Ln(Fx(n), 1, 0), Ln(Fx(m), 2, 0)>>, FALSE)           \* n inlined into m
 L3(n, m, k) == Loc(M0, 100 + 64 * Code(n) + 8 * Code(m) + Code(k), <<Ln(Fx(n), 1, 0), Ln(Fx(m), 2, 0), Ln(Fx(k), 3, 0)>>, FALSE)
 LU == Loc(M0, 9, <<>>, FALSE)
+\* a function without a name (only a system name): matches nothing, is no cut point, stays where it is
+FE == Fn("", "sysonly", "x.c", 0)
+LE == Loc(M0, 8, <<Ln(FE, 1, 0)>>, FALSE)
+LEmid == Loc(M0, 90, <<Ln(Fx("b"), 1, 0), Ln(FE, 2, 0), Ln(Fx("u"), 3, 0)>>, FALSE)
 
 Base == {"a", "b", "u"}
 Singles(d) == {L1(n) : n \in Names} \cup {LU}
@@ -42,6 +46,7 @@ Stacks(d) == {<<l>> : l \in AllLocs(0)}
              \cup {<<l, m>> : l \in Mid(0), m \in (IF Tier = "thorough" THEN Mid(0) ELSE {L1("u"), L1("a"), L2("u", "a"), L2("a", "u")})}
              \cup {<<L1(x), L1(y), L1(z)>> : x, y, z \in Base}
              \cup {<<L1("b"), L2(x, y), L1("u")>> : x, y \in Base}      \* an inlined location between a user root and a leaf
+             \cup {<<LE>>, <<L1("b"), LE, L1("u")>>, <<L1("a"), LE, L1("u")>>, <<L1("b"), LEmid>>, <<L1("b"), LEmid, L1("u")>>}
              \cup (IF Tier = "thorough" THEN {<<l, L1("u"), m>> : l \in Doubles(0), m \in Doubles(0)} ELSE {})
 \* second sample: shares the first sample's root-most location in a position where the rule applies differently
 Seconds(st) == IF Tier = "thorough" THEN {<<>>, <<st[Len(st)]>>, <<st[Len(st)], L1("u")>>, <<L1("a"), st[Len(st)], L1("u")>>, <<L1("u"), L1("a")>>, <<L1("a")>>, <<L1("u"), L1("b"), L1("a")>>,
